@@ -23,7 +23,9 @@ func slotKinds() []slotKind {
 		{"button", func(c string) string { return `<mj-button href="http://x/u">` + c + "</mj-button>" }, false},
 		{"table-cell", func(c string) string { return "<mj-table><tr><td>" + c + "</td></tr></mj-table>" }, false},
 		{"raw", func(c string) string { return "<mj-raw><div>" + c + "</div></mj-raw>" }, false},
-		{"navbar-link", func(c string) string { return `<mj-navbar><mj-navbar-link href="/a">` + c + "</mj-navbar-link></mj-navbar>" }, false},
+		{"navbar-link", func(c string) string {
+			return `<mj-navbar><mj-navbar-link href="/a">` + c + "</mj-navbar-link></mj-navbar>"
+		}, false},
 		{"social-element", func(c string) string {
 			return `<mj-social><mj-social-element name="facebook" href="http://x/f">` + c + "</mj-social-element></mj-social>"
 		}, false},
@@ -50,15 +52,23 @@ func placements() []placement {
 		{"two-columns", func(c string) string {
 			return "<mj-section><mj-column><mj-text>left</mj-text></mj-column><mj-column>" + c + "</mj-column></mj-section>"
 		}},
-		{"group", func(c string) string { return "<mj-section><mj-group><mj-column>" + c + "</mj-column><mj-column><mj-text>g2</mj-text></mj-column></mj-group></mj-section>" }},
+		{"group", func(c string) string {
+			return "<mj-section><mj-group><mj-column>" + c + "</mj-column><mj-column><mj-text>g2</mj-text></mj-column></mj-group></mj-section>"
+		}},
 		{"hero", func(c string) string { return "<mj-hero>" + c + "</mj-hero>" }},
-		{"wrapper", func(c string) string { return "<mj-wrapper><mj-section><mj-column>" + c + "</mj-column></mj-section></mj-wrapper>" }},
-		{"middle-of-three", func(c string) string { return filler + "<mj-section><mj-column>" + c + "</mj-column></mj-section>" + filler }},
+		{"wrapper", func(c string) string {
+			return "<mj-wrapper><mj-section><mj-column>" + c + "</mj-column></mj-section></mj-wrapper>"
+		}},
+		{"middle-of-three", func(c string) string {
+			return filler + "<mj-section><mj-column>" + c + "</mj-column></mj-section>" + filler
+		}},
 		{"after-chaining-section", func(c string) string { return filler + "<mj-section><mj-column>" + c + "</mj-column></mj-section>" }},
 		{"bg-section", func(c string) string {
 			return `<mj-section background-url="http://x/b.png" background-color="#eeeeee"><mj-column>` + c + "</mj-column></mj-section>"
 		}},
-		{"full-width-section", func(c string) string { return `<mj-section full-width="full-width"><mj-column>` + c + "</mj-column></mj-section>" }},
+		{"full-width-section", func(c string) string {
+			return `<mj-section full-width="full-width"><mj-column>` + c + "</mj-column></mj-section>"
+		}},
 	}
 }
 
